@@ -75,6 +75,9 @@ def make_enumerated(rng, idx, posterior=False):
 
 def make_random(rng, idx):
     n_ids = int(rng.integers(1, 7))
+    if rng.random() < 0.06:
+        # (ten and more individuals: labels '10', '11' sort before '2')
+        n_ids = int(rng.integers(10, 14))
     n_out = int(rng.integers(1, 3))
     fix_sigma = bool(rng.integers(2))
     one_par = ['GaussianErrorModel', 'LogNormalErrorModel',
